@@ -101,6 +101,10 @@ func signedVariants(d *world.DID, rng *rand.Rand) []*world.Op {
 	mk("update:nonce-ok", func(s *world.Spec) { s.Nonce = "AAECAwQFBgcICQoLDA0ODw" })
 	mk("update:nonce-short", func(s *world.Spec) { s.Nonce = "AAECAwQFBgcICQoLDA0O" })
 	mk("update:nonce-garbage", func(s *world.Spec) { s.Nonce = "***" })
+	mk("update:alg-lowercase", func(s *world.Spec) { s.HeaderAlg = strings.ToLower(s.SignWith.Type.Alg()) })
+	mk("update:alg-other-case", func(s *world.Spec) { a := s.SignWith.Type.Alg(); s.HeaderAlg = strings.ToLower(a[:1]) + a[1:] })
+	mk("update:crv-lowercase", func(s *world.Spec) { s.CrvSpell = strings.ToLower(s.SignedKey.Type.Crv()) })
+	mk("update:crv-uppercase", func(s *world.Spec) { s.CrvSpell = strings.ToUpper(s.SignedKey.Type.Crv()) })
 	mk("update:reuse-key", func(s *world.Spec) { s.NextUpd = cur.Commitment(d.Code) })
 	mk("update:reveal-other-key", func(s *world.Spec) { s.RevealKey = d.Stranger(0) })
 	mk("update:window", func(s *world.Spec) { s.From, s.Until = 1000, 2000 })
@@ -209,6 +213,8 @@ func runC10(c *ctx) error {
 					mkc("sig-algs-ES256", func(p *protocol.Protocol) { p.SignatureAlgorithms = []string{"ES256"} })
 					mkc("key-algs-P256", func(p *protocol.Protocol) { p.KeyAlgorithms = []string{"P-256"} })
 					mkc("patches-minimal", func(p *protocol.Protocol) { p.Patches = []string{"replace"} })
+					mkc("key-algs-none-matching", func(p *protocol.Protocol) { p.KeyAlgorithms = []string{"X-448"} })
+					mkc("sig-algs-none-matching", func(p *protocol.Protocol) { p.SignatureAlgorithms = []string{"HS256"} })
 					mkc("time-delta-1", func(p *protocol.Protocol) { p.MaxOperationTimeDelta = 1 })
 				}
 				for _, cfg := range cfgs {
